@@ -56,6 +56,9 @@ func (p *Path) newBytes(name, kind string, n int) []*sym.Term {
 }
 
 func (p *Path) namedChoice(name string, n int) int {
+	if debugDecisions && !p.replaying() {
+		fmt.Fprintf(os.Stderr, "DECISION named %s\n", name)
+	}
 	c := p.Choice(n)
 	nm := p.freshName(name)
 	p.inputs = append(p.inputs, &Input{Name: nm, Kind: "choice", Len: c})
